@@ -262,17 +262,30 @@ class _AccountTotalLoop(heap.MapLoopSpec):
     def __init__(self, W, figure, dname, accname):
         self.W, self.figure, self.dname, self.accname = W, figure, dname, accname
 
+    def _bind(self, env, names):
+        """by role, not by local name: the ONE dictionary and the ONE number the loop carries"""
+        if self.dname in env and self.accname in env:
+            return
+        ds = [n for n in names if isinstance(env.get(n), (heap.LazyDict, SymMap, dict))]
+        ns = [n for n in names if isinstance(env.get(n), (SymNum, float, int)) and not isinstance(env.get(n), bool)]
+        if len(ds) != 1 or len(ns) != 1:
+            raise Unmodelled('account-total loop: expected one dictionary and one accumulator among %s' % (names,))
+        self.dname, self.accname = ds[0], ns[0]
+
     def havoc(self, L, env, names):
         c = ctx()
+        self._bind(env, names)
         return {self.dname: SymMap(c.fresh(self.dname + '.dom', AKB), {'': c.fresh(self.dname + '.val', AKR)}),
                 self.accname: SymNum(c.fresh(self.accname, R))}
 
     def _d(self, env):
+        self._bind(env, list(env))
         d = env[self.dname]
         return d._sym() if isinstance(d, heap.LazyDict) else d
 
     def scal(self, L, env, done):
         x = z3.Const('__p', K)
+        self._bind(env, list(env))
         return [('dict-has-exactly-the-processed-ids', self._d(env).dom == done),
                 ('master-is-sum-over-processed', lift(env[self.accname]) == heap.SUM(done, z3.Lambda([x], self.figure(x))))]
 
